@@ -33,7 +33,15 @@ type xferCase struct {
 	History string    `json:"history,omitempty"` // C03 resume histories
 	// Preexist: the output directory already holds other content at some of the
 	// manifest's file paths before the transfer: "" | longer | shorter | samelen
+	// or the state of an interrupted earlier session (data file with exactly
+	// the completed chunks + valid sidecar): leftover-samecs | leftover-samecount
+	// | leftover-othercount (chunk size of that session vs this one)
 	Preexist string `json:"preexist,omitempty"`
+	// Selection: several hosted paths with the same base name (ScanPaths mode),
+	// same relative paths and sizes but different bytes below each:
+	// "" | dup2-unsorted | dup3-unsorted | dup2-sorted (argument order vs
+	// lexical order of the absolute paths)
+	Selection string `json:"selection,omitempty"`
 }
 
 var chunkSizes = []uint32{1, 7, 64, 1000, 4096, 65536, 1 << 20}
@@ -138,6 +146,19 @@ func genXferCases(e *Env, n int, quicOnly bool) []xferCase {
 		}
 		if r.Intn(4) == 0 {
 			c.Preexist = []string{"longer", "shorter", "samelen"}[r.Intn(3)]
+		} else if r.Intn(6) == 0 {
+			c.Preexist = []string{"leftover-samecs", "leftover-samecount", "leftover-samecount", "leftover-othercount"}[r.Intn(4)]
+			c.Cfg.Resume = true
+			if c.Cfg.ChunkSize < 7 {
+				c.Cfg.ChunkSize = 7
+			}
+			if c.Shape == "dirsonly" || c.Shape == "empty" || c.Shape == "zerolen" {
+				c.Shape = []string{"fewchunks", "boundary", "nested"}[r.Intn(3)]
+			}
+		}
+		if r.Intn(12) == 0 && !strings.HasPrefix(c.Preexist, "leftover-") {
+			c.Selection = []string{"dup2-unsorted", "dup3-unsorted", "dup2-sorted"}[r.Intn(3)]
+			c.Cfg.ScanPaths = true
 		}
 		cases = append(cases, c)
 	}
@@ -150,6 +171,11 @@ type xferOutcome struct {
 	Res    vk.XferResult
 	Diff   []string
 	Err    string
+	// leftover cases: files prepared / of those with a gap below a marked chunk
+	LeftFiles, LeftGaps int
+	// differences of the output directory when a transfer stopped without
+	// double success (evidence for replays, not a verdict)
+	StateAtStop []string
 }
 
 // runXferCase materialises the tree, runs the transfer and, on double success,
@@ -174,10 +200,47 @@ func runXferCase(e *Env, lp *vk.ListenerPool, c xferCase, keep bool) xferOutcome
 	}
 	cfg := c.Cfg
 	cfg.SendDeco = &vk.Deco{}
-	if c.Preexist != "" {
+	var expected map[string]vk.DigestEntry
+	if c.Selection != "" {
+		// the same relative paths and sizes below several roots named "x", with
+		// different bytes; parents chosen so that the argument order differs
+		// from (or equals) the lexical order of the absolute paths
+		parents := map[string][]string{"dup2-unsorted": {"p2", "p1"}, "dup3-unsorted": {"p2", "p0", "p1"}, "dup2-sorted": {"p1", "p2"}}[c.Selection]
+		rootPrefix := ""
+		if !cfg.NoRootDir {
+			rootPrefix = "selection/"
+		}
+		expected = map[string]vk.DigestEntry{}
+		for k, par := range parents {
+			tk := tree
+			tk.Seed = tree.Seed ^ (uint64(k+1) * 0x9e3779b97f4a7c15)
+			root := filepath.Join(base, par, "x")
+			if err := tk.Materialize(root); err != nil {
+				out.Err = "materialize: " + err.Error()
+				return out
+			}
+			cfg.SrcList = append(cfg.SrcList, root)
+			for p, d := range vk.ExpectedDigest(tk, fmt.Sprintf("%s%d_x/", rootPrefix, k+1)) {
+				expected[p] = d
+			}
+		}
+		src = cfg.SrcList[0]
+	}
+	if strings.HasPrefix(c.Preexist, "leftover-") {
+		if c.Selection != "" {
+			out.Err = "leftover and selection are not combined"
+			return out
+		}
+		var lerr error
+		out.LeftFiles, out.LeftGaps, lerr = synthLeftover(cfg, src, outDir, strings.TrimPrefix(c.Preexist, "leftover-"), c.TSeed)
+		if lerr != nil {
+			out.Err = "leftover: " + lerr.Error()
+			return out
+		}
+	} else if c.Preexist != "" && c.Selection == "" {
 		prepopulate(outDir, tree, cfg, src, c.Preexist, c.TSeed)
 	}
-	if inv := curInv; inv != nil && cfg.Resume {
+	if inv := curInv; inv != nil && cfg.Resume && c.Selection == "" {
 		if m, _, _, prefix, err := vk.BuildManifest(cfg, src); err == nil {
 			baseDir := outDir
 			strip := ""
@@ -200,7 +263,10 @@ func runXferCase(e *Env, lp *vk.ListenerPool, c xferCase, keep bool) xferOutcome
 			out.Err = "digest: " + err.Error()
 			return out
 		}
-		out.Diff = vk.DiffDigest(vk.ExpectedDigest(tree, res.Prefix), got)
+		if expected == nil {
+			expected = vk.ExpectedDigest(tree, res.Prefix)
+		}
+		out.Diff = vk.DiffDigest(expected, got)
 	}
 	return out
 }
@@ -406,16 +472,25 @@ func runC01(e *Env) {
 		okByTransport[fmt.Sprintf("%s-c%d", c.Cfg.Transport, min(c.Cfg.Conns, 2))]++
 		mu.Unlock()
 		if o.Tree.MaxChunks(int64(c.Cfg.ChunkSize)) >= 2 {
-			e.R.Distinct(c.Cfg.Key() + "/" + c.Shape + "/pre=" + c.Preexist)
+			e.R.Distinct(c.Cfg.Key() + "/" + c.Shape + "/pre=" + c.Preexist + "/sel=" + c.Selection)
 		}
 		if c.Preexist != "" {
 			e.R.Count("double_success_with_preexisting_output:" + c.Preexist)
+		}
+		if o.LeftGaps > 0 {
+			e.R.Count("double_success_with_leftover_gap_bitmap:" + c.Preexist)
+		}
+		if c.Selection != "" && o.Tree.FileCount() > 0 {
+			e.R.Count("double_success_with_selection:" + c.Selection)
 		}
 		e.R.Count("double_success")
 		if len(o.Diff) > 0 {
 			key := "digest-mismatch:" + c.Cfg.Transport + ":" + c.Shape
 			if c.Preexist != "" {
 				key = "digest-mismatch:preexisting-output-" + c.Preexist
+			}
+			if c.Selection != "" {
+				key = "digest-mismatch:selection:" + c.Selection
 			}
 			e.R.Violate(key, fmt.Sprintf("both endpoints returned nil but the output tree differs from the source: %v", o.Diff), c, map[string]any{"diff": o.Diff, "tree": o.Tree})
 		}
@@ -433,6 +508,12 @@ func runC01(e *Env) {
 		e.R.Require(okByTransport[tr] >= e.Pick(5, 50), fmt.Sprintf("too few double successes on %s: %d", tr, okByTransport[tr]))
 	}
 	e.R.Require(len(orders) >= 3, "fewer than 3 distinct chunk arrival orders observed")
+	for _, v := range []string{"leftover-samecs", "leftover-samecount", "leftover-othercount"} {
+		e.R.Require(e.R.Counter("double_success_with_leftover_gap_bitmap:"+v) >= e.Pick(3, 20), "too few double successes over a leftover session state with a gap bitmap: "+v)
+	}
+	for _, v := range []string{"dup2-unsorted", "dup3-unsorted", "dup2-sorted"} {
+		e.R.Require(e.R.Counter("double_success_with_selection:"+v) >= e.Pick(3, 20), "too few double successes with a selection of equal base names: "+v)
+	}
 }
 
 // curInv is the in-process C05 monitor armed by the current command (if any).
